@@ -13,12 +13,14 @@ RULE = ("(a) single-thread random histories of get-dependent / dispose-dependent
         "hand-written programs, random/PCT for generated ones); oracle = underlying dispose count <= 1 at all times and == 1 at quiescence, a "
         "hook inside the underlying resource's dispose() that checks primary and every handed-out dependent had dispose() called, count >= 0; "
         "distinct = (program, decision list); non-trivial = a preemptive switch happened")
-ASSUMPTIONS = ["line-granular serialisation: interleavings inside one source line are not produced",
+ASSUMPTIONS = ["free-running units: real threads, switch interval 1 us, yields injected at bytecode granularity (sys.monitoring INSTRUCTION) in the files under test; not replayable, a violation carries the recorded event log; the distinct event orders seen are in the evidence sets free_interleavings:*",
+               "line-granular serialisation: interleavings inside one source line are not produced",
                "threading primitives are replaced by instrumented equivalents while reactivex is imported",
                "bounded histories only (<= 14 calls, <= 3 threads): the 'abstract model over unbounded histories' of the quantifier is out of this family's reach"]
 REQUIRED = {"decided_runs": {"quick": 500, "thorough": 5000}, "preemptive_switches": {"quick": 300, "thorough": 3000},
             "dfs_complete_scenarios": {"quick": 5, "thorough": 6}, "single_thread_histories": {"quick": 1500, "thorough": 40000},
-            "late_dependents": {"quick": 50, "thorough": 500}}
+            "late_dependents": {"quick": 50, "thorough": 500},
+            "runs:free": {"quick": 2000, "thorough": 40000}, "free_injected_yields": {"quick": 5000, "thorough": 100000}}
 UNIT_TIMEOUT = {"quick": 240, "thorough": 3000}
 FILES = ("disposable/refcountdisposable.py",)
 
@@ -175,7 +177,7 @@ def scenario(c: Any, P: dict) -> dict:
             if u.n > 1:
                 viol.append(("C27:released-twice", {"after": op}))
 
-    ts = [D.VThread(target=worker, args=(p,), name="W") for p in P["progs"]]
+    ts = [c.Thread(target=worker, args=(p,), name="W") for p in P["progs"]]
     for t in ts:
         t.start()
     for t in ts:
@@ -209,6 +211,9 @@ def units(tier: str, seed: int) -> list[dict]:
     nst = 2400 if q else 64000
     for lo in range(0, nst, nst // 4):
         us.append({"mode": "st", "lo": lo, "hi": lo + nst // 4, "seed": seed})
+    # free-running tier (real threads, bytecode-granular yield injection)
+    for lo in range(0, nprog, per):
+        us.append({"mode": "free", "progs": [lo, lo + per], "runs": 150 if q else 3000, "seed": seed})
     return us
 
 
@@ -216,6 +221,14 @@ def run_unit(unit: dict, res: UnitResult) -> None:
     if unit["mode"] == "st":
         for i in range(unit["lo"], unit["hi"]):
             run_history(unit["seed"], i, res)
+        return
+    if unit["mode"] == "free":
+        from ..freerun import explore_free
+        ff = tuple("reactivex/" + x for x in FILES)
+        for hi, P in enumerate(HAND):
+            explore_free(res, ID, "free-hand%d" % hi, scenario, P, seed=unit["seed"], runs=max(20, unit["runs"] // 4), files=ff)
+        for pi in range(*unit["progs"]):
+            explore_free(res, ID, "free-gen%d" % pi, scenario, gen_program(case_rng(unit["seed"], ID, "prog", pi)), seed=unit["seed"], runs=unit["runs"], files=ff)
         return
     from .. import dcheck, dsched as D
     D.install(D.repo_file(*FILES))
@@ -234,6 +247,10 @@ def run_unit(unit: dict, res: UnitResult) -> None:
 def replay(rep: dict, res: UnitResult) -> None:
     if rep["scenario"] == "st":
         run_history(rep["params"]["seed"], rep["params"]["i"], res)
+        return
+    if rep.get("free"):
+        from ..freerun import explore_free
+        explore_free(res, ID, rep["scenario"], scenario, rep["params"], seed=rep.get("seed", 0), runs=rep.get("runs", 1000), files=tuple("reactivex/" + x for x in FILES))
         return
     from .. import dcheck, dsched as D
     D.install(D.repo_file(*FILES))
